@@ -144,6 +144,9 @@ def contracts(repo):
     out = [_bitcount("ctz"), _bitcount("cto")] if os.environ.get("VERIF_TIER_EFFECTIVE", "quick") == "thorough" else []
     for cb, ext in _cases():
         out.append(_geometry(repo, cb, ext))
+        if not ext:
+            # version-2 header: qcow2.txt gives it 72 bytes; whatever follows (header extensions, the backing file name) is not a feature field
+            out.append(_geometry(repo, cb, False, free=("incompatible_features", "compatible_features", "autoclear_features", "refcount_order", "header_length", "compression_type"), version=2))
         out.append(_read_compressed(cb, ext))
         out += _l2_accessors(cb, ext)
         if not ext:
@@ -445,7 +448,7 @@ def _bitcount(which):
                       loops={("For", 0): LoopSpec(inv=lambda eng, st: z3.BoolVal(True), unroll=32)}, note="size is the constant 32 used by every caller; value any 64-bit integer")
 
 
-def _geometry(repo, cb, ext, free=()):
+def _geometry(repo, cb, ext, free=(), version=3):
     """QCow2.__init__ with the header pinned to one geometry: the derived attributes the read path relies on have their specified values"""
     from .gates import GateModel
 
@@ -456,7 +459,7 @@ def _geometry(repo, cb, ext, free=()):
         def parse(eng, st, cs, T_, arg, node):
             obj = base_parse(eng, st, cs, T_, arg, node)
             if T_.__name__ == "QCowHeader":
-                pins = {"version": 3, "cluster_bits": cb, "incompatible_features": 16 if ext else 0, "crypt_method": 0, "backing_file_offset": 0, "header_length": 112, "compression_type": 0}
+                pins = {"version": version, "cluster_bits": cb, "incompatible_features": 16 if ext else 0, "crypt_method": 0, "backing_file_offset": 0, "header_length": 112, "compression_type": 0}
                 for k, v in pins.items():
                     if k not in free:
                         m.fields[f"{obj.path}.{k}"] = IntV(z3.IntVal(v))
@@ -476,12 +479,31 @@ def _geometry(repo, cb, ext, free=()):
                     sol.add(v != cand)
                     if z3.is_int_value(cand) and sol.check() == z3.unsat:
                         v = cand
+            def ctz_const(x):
+                i = 0
+                while i < 32 and not (x >> i) & 1:
+                    i += 1
+                return i
+
             if not z3.is_int_value(v):
-                raise Unsupported(f"ctz of a non-constant value {v}")
-            x, i = v.as_long(), 0
-            while i < 32 and not (x >> i) & 1:
-                i += 1
-            return IntV(z3.IntVal(i))  # contract of ctz (proved above), evaluated on a constant
+                # a value with a few possible constants under the path condition (e.g. `16 if <flag> else 8` with an unknown flag): the
+                # contract of ctz is evaluated on each of them
+                sol = z3.Solver()
+                sol.add(*st.hyps)
+                cands = []
+                while len(cands) <= 4 and sol.check() == z3.sat:
+                    cand = sol.model().eval(v, model_completion=True)
+                    if not z3.is_int_value(cand):
+                        break
+                    cands.append(cand.as_long())
+                    sol.add(v != cand)
+                if not cands or len(cands) > 4 or sol.check() != z3.unsat:
+                    raise Unsupported(f"ctz of a non-constant value {v}")
+                e = z3.IntVal(ctz_const(cands[-1]))
+                for c_ in cands[:-1]:
+                    e = z3.If(v == c_, z3.IntVal(ctz_const(c_)), e)
+                return IntV(e)
+            return IntV(z3.IntVal(ctz_const(v.as_long())))  # contract of ctz (proved above), evaluated on a constant
 
         m.global_calls["ctz"] = ctz
         m.global_calls["super"] = lambda eng, st, args, node: ObjV("super")
@@ -502,8 +524,9 @@ def _geometry(repo, cb, ext, free=()):
         return goals
 
     return FnContract(FILE, "QCow2.__init__", ["C01"], model, params=lambda m: {"self": ObjV("self"), "fh": FileV("fh"), "data_file": OpaqueV("data_file"), "backing_file": NoneV()},
-                      requires=lambda m: m.hyps, post=post, allow_any_exception=True, mode="geometry", case=_case_name(cb, ext),
-                      note="gate mode with cluster_bits / extended-L2 flag pinned to the case: the class invariant the read-path contracts assume (RunModel / ReadModel fields)")
+                      requires=lambda m: m.hyps, post=post, allow_any_exception=True, mode="geometry", case=_case_name(cb, ext) + (",v2" if version == 2 else ""),
+                      note="gate mode with cluster_bits / extended-L2 flag pinned to the case: the class invariant the read-path contracts assume (RunModel / ReadModel fields)"
+                           + ("; version 2: the 32 bytes after the 72-byte header (where version 3 keeps its feature bits, refcount order and header length) are arbitrary and must not influence the geometry" if version == 2 else ""))
 
 
 def _compression(repo):
